@@ -24,6 +24,8 @@ import re
 from lib.framework import Check, enc, encb, time_limit
 
 from harness import c08_gen as G
+from harness import c08_tok as T
+from gen import c08_productions as gen_prod
 
 U8 = 'utf-8'
 
@@ -110,7 +112,7 @@ class C08(Check):
     driver_exe = 'drv_c08'
     sources = ('cssutils/util.py', 'cssutils/parse.py', 'cssutils/css/cssstylesheet.py',
                'cssutils/css/cssimportrule.py', 'cssutils/css/csscharsetrule.py', 'cssutils/serialize.py',
-               'cssutils/codec.py', 'cssutils/tokenize2.py')
+               'cssutils/codec.py', 'cssutils/tokenize2.py', 'cssutils/cssproductions.py')
     trusted_base = (
         'hand-written models lean/CssVerif/Model/EncLadder.lean (_readUrl, _setHref, _resolveImport, '
         '_setCssTextWithEncodingOverride, parseString/parseUrl), EncSheet.lean (insertRule/deleteRule/encoding), '
@@ -141,8 +143,17 @@ class C08(Check):
     def run(self, ctx):
         cssutils = silence()
         G.install_wrappers()
-        for part in (self.corpus, self.part_a, self.part_b, self.part_c, self.part_d, self.oracle_reparse):
+        for part in (self.corpus, self.part_a, self.part_b, self.part_c, self.part_d, self.part_e, self.oracle_reparse):
             ctx.phase(part, ctx, cssutils)
+
+    def translate(self, ctx):
+        # the tokenizer's productions of THIS source (Lemmas/EncTokTable.lean proves them equal to the table the theorems use)
+        _, text = gen_prod.build(ctx.repo)
+        return {'CssVerif/Gen/C08Productions.lean': text}
+
+    # == E: escapecss against the tokenizer (T8.4c) ====================================================
+    def part_e(self, ctx, cssutils):
+        T.part(self, ctx, cssutils)
 
     # -- corpus: minimized past failures, run first ---------------------------------------------------
     def corpus(self, ctx, cssutils):
@@ -172,6 +183,8 @@ class C08(Check):
             self.check_unescape(ctx, cssutils, [(m, item['text']) for m in ([item['token']] if item.get('token') else ['name', 'str'])])
         elif k == 'reparse':
             self.check_reparse(ctx, cssutils, item['text'], item['encoding'])
+        elif k in ('tokesc', 'tokfirst', 'tokescf'):
+            T.check(self, ctx, cssutils, [(item['text'], item['encoding'])])
 
     # == A: the ladder =================================================================================
     def part_a(self, ctx, cssutils):
